@@ -12,21 +12,21 @@ import Cellml.Props.C09
     the leaf bindings of `Tie/GraphView.lean` (networkx, sympy, attribute reads).
 
     `genEquationsFor_tie`: it equals the hand model `C09.getEquationsFor` (result lists related by `eqnOf`, exception
-    classes by `errName`), for all arguments, under ONE domain hypothesis that is needed only when `strip = true`:
-    `NumOK` — an equation without `Quantity` objects keeps all its references after number substitution (the code skips
-    such an equation, `if subs_dict:`; the hand model filters its in-edges by `refsNum` all the same). -/
+    classes by `errName`), for ALL arguments, with no domain hypothesis. (It used to carry `NumOK` for `strip = true`:
+    the hand model pruned the in-edges of every equation, the code only of equations that hold a `Quantity`,
+    `if subs_dict:`. The model now has the same guard, `C09.Eqn.hasQ`, and the hypothesis is gone.) -/
 
 namespace Cellml.Tie.GenD
 open C09 Cellml.Gen Cellml.Tie Cellml.Tie.PGraph
 
-/-- what the three python functions read of a `Model` object (the arguments of the views of `Tie/GraphView.lean`) -/
+/-- what the three python functions read of a `Model` object (the arguments of the views of `Tie/GraphView.lean`);
+    which right-hand sides contain `Quantity` objects (`equation.rhs.atoms(Quantity)`) is the field `hasQ` of each
+    equation -/
 structure PyModel where
   /-- `str` of a node (the sort key) -/
   key : Node → String
   /-- `self.equations` -/
   eqs : List Eqn
-  /-- `equation.rhs.atoms(Quantity)`: which right-hand sides contain `Quantity` objects (not part of the C09 model) -/
-  dummies : Eqn → List Nat
   /-- `self._name_to_variable.values()` (the graph does not depend on it: `graph_independent`) -/
   vars : List Node := []
   /-- `isinstance(equation.rhs, Quantity)` (the graph does not depend on it) -/
@@ -41,7 +41,7 @@ def genGraph (m : PyModel) : Except PyErr Graph :=
 /-- `self.graph_with_sympy_numbers`, as generated from the source of the property, called with an empty cache; its
     `self.graph.copy()` is the generated `self.graph` -/
 def genGraphNum (m : PyModel) : Except PyErr Graph :=
-  (GraphNum.graphWithSympyNumbers (numView m.eqs m.dummies (genGraph m)) none).map (·.1)
+  (GraphNum.graphWithSympyNumbers (numView m.eqs (genGraph m)) none).map (·.1)
 
 /-- the `Model` as `get_equations_for` sees it, both graph properties being the generated ones -/
 def genEqsView (m : PyModel) : EqsView where
@@ -57,19 +57,11 @@ def genEquationsFor (m : PyModel) (vars : List Node) (recurse strip : Bool) : Ex
 /-- the left-hand sides of the equations python returned (`eq.lhs for eq in result`) -/
 def lhsList (res : List (Option Eqn)) : List Node := res.map fun o => (theEqn o).lhs
 
-/-- The domain of `graphNum_tie_built`: a right-hand side WITHOUT `Quantity` objects has the same references after
-    number substitution (sympy: `xreplace` with the empty dict is the identity; the python code does not even call it).
-    Outside, the hand model removes an edge that the code keeps. -/
-def NumOK (m : PyModel) : Prop := ∀ e ∈ m.eqs, (m.dummies e).isEmpty = true → ∀ r ∈ e.refs, r ∈ e.refsNum
-
-/-- for `strip_units=False` there is no domain restriction -/
-theorem numOK_false (m : PyModel) : false = true → NumOK m := fun h => by cases h
-
 -- ------------------------------------------------------------------------------------------------ the closed tie
 theorem genGraph_eq (m : PyModel) (recurse : Bool) : genGraph m = (eqsView m.key m.eqs recurse).graph :=
   graph_feeds_eqsView m.key m.eqs m.vars m.rq m.ty0 recurse
 
-theorem genGraphNum_eq (m : PyModel) (h : NumOK m) (recurse : Bool) :
+theorem genGraphNum_eq (m : PyModel) (recurse : Bool) :
     genGraphNum m = (eqsView m.key m.eqs recurse).graphNum := by
   unfold genGraphNum
   rw [genGraph_eq m recurse]
@@ -77,7 +69,7 @@ theorem genGraphNum_eq (m : PyModel) (h : NumOK m) (recurse : Bool) :
   | ok g =>
     have h1 : (eqsView m.key m.eqs recurse).graph = .ok g := by simp [eqsView, hb, errClass]
     rw [h1]
-    exact graphNum_feeds_eqsView m.key m.eqs m.dummies g recurse hb h
+    exact graphNum_feeds_eqsView m.key m.eqs g recurse hb
   | error x =>
     have h1 : (eqsView m.key m.eqs recurse).graph = .error ⟨errName recurse x⟩ := by simp [eqsView, hb, errClass]
     rw [h1, graphNum_error]
@@ -94,13 +86,13 @@ theorem getEquationsFor_congr (V W : EqsView) (vars : List Node) (recurse strip 
   · simp only [Py.truthy_bool, if_true, hn rfl, hk, he]
 
 /-- **Closed tie**: the composition of the three generated definitions is the hand model `C09.getEquationsFor` -/
-theorem genEquationsFor_tie (m : PyModel) (vars : List Node) (recurse strip : Bool) (hN : strip = true → NumOK m) :
+theorem genEquationsFor_tie (m : PyModel) (vars : List Node) (recurse strip : Bool) :
     genEquationsFor m vars recurse strip
       = errClass (errName recurse) ((getEquationsFor m.key m.eqs vars recurse strip).map (·.map (eqnOf m.eqs))) := by
   rw [← getEquationsFor_tie]
   apply getEquationsFor_congr
   · intro _; exact genGraph_eq m recurse
-  · intro hs; exact genGraphNum_eq m (hN hs) recurse
+  · intro _; exact genGraphNum_eq m recurse
   · rfl
   · rfl
 
@@ -123,10 +115,10 @@ theorem model_res_hasEq {key : Node → String} {eqs : List Eqn} {vars : List No
 
 /-- python returned `res` ⇒ the hand model returns the left-hand sides of `res`, and `res` is the list of the
     `equation` attributes of those nodes -/
-theorem gen_ok {m : PyModel} {vars : List Node} {recurse strip : Bool} (hN : strip = true → NumOK m)
+theorem gen_ok {m : PyModel} {vars : List Node} {recurse strip : Bool}
     {res : List (Option Eqn)} (h : genEquationsFor m vars recurse strip = .ok res) :
     getEquationsFor m.key m.eqs vars recurse strip = .ok (lhsList res) ∧ res = (lhsList res).map (eqnOf m.eqs) := by
-  rw [genEquationsFor_tie m vars recurse strip hN] at h
+  rw [genEquationsFor_tie m vars recurse strip] at h
   cases hm : getEquationsFor m.key m.eqs vars recurse strip with
   | error x => rw [hm] at h; simp [errClass, Except.map] at h
   | ok r =>
@@ -137,24 +129,24 @@ theorem gen_ok {m : PyModel} {vars : List Node} {recurse strip : Bool} (hN : str
     exact ⟨rfl, rfl⟩
 
 /-- the hand model returns `r` ⇒ python returns the equations of `r` -/
-theorem gen_of_ok {m : PyModel} {vars : List Node} {recurse strip : Bool} (hN : strip = true → NumOK m)
+theorem gen_of_ok {m : PyModel} {vars : List Node} {recurse strip : Bool}
     {r : List Node} (h : getEquationsFor m.key m.eqs vars recurse strip = .ok r) :
     genEquationsFor m vars recurse strip = .ok (r.map (eqnOf m.eqs)) := by
-  rw [genEquationsFor_tie m vars recurse strip hN, h]
+  rw [genEquationsFor_tie m vars recurse strip, h]
   rfl
 
 /-- the hand model fails ⇒ python raises the class `errName` gives -/
-theorem gen_of_error {m : PyModel} {vars : List Node} {recurse strip : Bool} (hN : strip = true → NumOK m)
+theorem gen_of_error {m : PyModel} {vars : List Node} {recurse strip : Bool}
     {x : Err} (h : getEquationsFor m.key m.eqs vars recurse strip = .error x) :
     genEquationsFor m vars recurse strip = .error ⟨errName recurse x⟩ := by
-  rw [genEquationsFor_tie m vars recurse strip hN, h]
+  rw [genEquationsFor_tie m vars recurse strip, h]
   rfl
 
 /-- every entry python returns is an equation of the model, filed under its own left-hand side -/
-theorem gen_entries {m : PyModel} {vars : List Node} {recurse strip : Bool} (hN : strip = true → NumOK m)
+theorem gen_entries {m : PyModel} {vars : List Node} {recurse strip : Bool}
     {res : List (Option Eqn)} (h : genEquationsFor m vars recurse strip = .ok res) :
     ∀ o ∈ res, ∃ e ∈ m.eqs, o = some e ∧ eqnOf m.eqs e.lhs = some e := by
-  obtain ⟨hm, hres⟩ := gen_ok hN h
+  obtain ⟨hm, hres⟩ := gen_ok h
   intro o ho
   rw [hres] at ho
   obtain ⟨v, hv, rfl⟩ := List.mem_map.mp ho
